@@ -17,6 +17,8 @@ def apply(tree, dst, here):
         if not os.path.exists(up):
             continue
         u = json.load(open(up))
+        if u.get("disabled"):
+            continue
         lost = []
         for rt in u.get("retarget", []):
             if rt.get("tree", "shim") != tree:
